@@ -176,6 +176,9 @@ func c10Drivers() []concParams {
 		{Name: "merged-group-fills-buffer-vs-close", Cfg: "wide/bytewise", Pre: []string{"putM:a", "putE:b"}, Clients: [][]string{{"put:a"}, {"put:b"}, {"close"}}, QB: 2, TB: 3},
 		{Name: "writers-vs-tr", Cfg: "default/bytewise", Clients: [][]string{{"put:a"}, {"put:b"}, {"tr:+a,+b"}}, QB: 2, TB: 2, Expect: "noerr"},
 		{Name: "writers-vs-compact", Cfg: "default/bytewise", Pre: []string{"put:a"}, Clients: [][]string{{"put:a"}, {"put:b"}, {"cr"}}, QB: 1, TB: 2, Expect: "noerr"},
+		// CompactRange holds the write lock across its buffer rotation: a writer must not get in between
+		{Name: "compactrange-vs-writer", Cfg: "default/bytewise", Pre: []string{"put:a"}, Clients: [][]string{{"cr"}, {"put:b"}}, QB: 2, TB: 3, Expect: "noerr"},
+		{Name: "compactrange-vs-writer-flushy", Cfg: "flushy/bytewise", Pre: []string{"put:a"}, Clients: [][]string{{"cr"}, {"put:b"}}, QB: 2, TB: 3, Expect: "noerr"},
 		{Name: "writers-vs-readonly", Cfg: "default/bytewise", Clients: [][]string{{"put:a"}, {"put:b"}, {"ro"}}, QB: 2, TB: 3},
 		{Name: "4-writers", Cfg: "default/bytewise", Clients: [][]string{{"put:a"}, {"put:b"}, {"put:a"}, {"put:b"}}, QB: 1, TB: 2, Expect: "noerr"},
 	}
